@@ -510,6 +510,47 @@ class Gen:
         return {"templates": templates, "main": main, "ctx": ctx,
                 "strict": r.random() < 0.12, "phase": "adv" if self.adv else "free"}
 
+    def history(self):
+        """1..4 calls on one instance; a fifth of the histories is built so that an early call raises
+        INSIDE an include (strict missing variable / len() of an int in the included template) and
+        a later call renders the same include with a good context"""
+        r = self.r
+        c = self.case()
+        phase = c["phase"]
+        if r.random() < 0.35:
+            kind = r.choice(["strict-missing", "length-int", "length-int-nested"])
+            inner = self.leaves(0, 2, False, []) + ([["V", "m1"]] if kind == "strict-missing" else [["P", "n1", "length"]])
+            inner += self.leaves(0, 1, False, [])
+            templates = [["t1", inner]]
+            if kind == "length-int-nested":
+                templates.append(["t2", [["T", "["], ["G", "t1"], ["T", "]"]]])
+            top = templates[-1][0]
+            main = self.leaves(0, 2, False, []) + [["G", top]] + self.leaves(0, 1, False, [])
+            good = [[v, self.value(v)] for v in VARS if v not in ("m1", "n1") and r.random() < 0.5]
+            bad = list(good)
+            if kind == "strict-missing":
+                good = good + [["m1", {"s": self.string()}]]
+            else:
+                good = good + [["n1", r.choice([{"s": "four"}, {"l": ["a", "b"]}])]]
+                bad = bad + [["n1", {"i": r.choice([0, 5])}]]
+            calls = [{"main": main, "ctx": bad}, {"main": main, "ctx": good}]
+            if r.random() < 0.4:
+                calls.append({"main": self.nodes(r.randint(1, 2), [t[0] for t in templates]), "ctx": good})
+            if r.random() < 0.3:
+                calls.insert(0, {"main": main, "ctx": good})
+            return {"templates": templates, "calls": calls, "strict": kind == "strict-missing" or r.random() < 0.2,
+                    "phase": phase}
+        k = r.choice([1, 1, 2, 2, 3, 4])
+        if k == 1:
+            return c
+        calls = [{"main": c["main"], "ctx": c["ctx"]}]
+        names = [n for n, _ in c["templates"]]
+        for _ in range(k - 1):
+            main = c["main"] if r.random() < 0.4 else self.nodes(r.randint(1, 3), names)
+            ctx = [[v, self.value(v)] for v in VARS if r.random() < 0.6]
+            calls.append({"main": main, "ctx": ctx})
+        return {"templates": c["templates"], "calls": calls, "strict": c["strict"], "phase": phase}
+
 
 # ---------------------------------------------------------------------------
 # driving the implementation
@@ -589,15 +630,23 @@ def parse_warning(w):
     return (9, w)
 
 
-def run_real(case, escd=False):
-    """-> dict(text, warnings [(kind, name)], error None|(kind, name))"""
-    from operon_ai.organelles.ribosome import Ribosome
-    r = Ribosome(strict=case["strict"], silent=True)
-    for name, ast in case["templates"]:
-        r.create_template(pr(ast, escd), name)
-    pctx = py_ctx(case["ctx"], escd)
+def calls_of(case):
+    """the calls made on ONE Ribosome, in order: [{"main": ast, "ctx": ctx}, ...]"""
+    if "calls" in case:
+        return case["calls"]
+    return [{"main": case["main"], "ctx": case["ctx"]}]
+
+
+def sub_case(case, k):
+    """call k of a history as a single-call case (same templates, same strict flag)"""
+    cl = calls_of(case)[k]
+    return {"templates": case["templates"], "strict": case["strict"], "phase": case.get("phase", "free"),
+            "main": cl["main"], "ctx": cl["ctx"]}
+
+
+def _one_call(r, main_text, pctx):
     try:
-        p = common.call_with_watchdog(lambda: r.synthesize(pr(case["main"], escd), **pctx), 5.0)
+        p = common.call_with_watchdog(lambda: r.synthesize(main_text, **pctx), 5.0)
     except ValueError as e:
         msg = str(e)
         if msg.startswith("Missing required variable: "):
@@ -612,6 +661,21 @@ def run_real(case, escd=False):
     except Exception as e:
         return {"text": None, "warnings": [], "error": ("other", type(e).__name__)}
     return {"text": p.sequence, "warnings": [parse_warning(w) for w in p.warnings], "error": None}
+
+
+def run_history(case, escd=False):
+    """every call of the history on ONE fresh Ribosome
+    -> [dict(text, warnings [(kind, name)], error None|(kind, name))]"""
+    from operon_ai.organelles.ribosome import Ribosome
+    r = Ribosome(strict=case["strict"], silent=True)
+    for name, ast in case["templates"]:
+        r.create_template(pr(ast, escd), name)
+    return [_one_call(r, pr(cl["main"], escd), py_ctx(cl["ctx"], escd)) for cl in calls_of(case)]
+
+
+def run_real(case, escd=False):
+    """a single-call case on a fresh Ribosome"""
+    return run_history(case, escd)[0]
 
 
 # ---------------------------------------------------------------------------
@@ -754,7 +818,10 @@ class C12(Check):
     CASE_TYPE = "case"
     N_QUICK = 1200
     N_THOROUGH = 16000
-    RULE = ("templates generated from the documented grammar as ASTs (text, plain/optional/piped variables, {{.}}, "
+    RULE = ("HISTORIES of 1..4 synthesize() calls on ONE Ribosome (same registered templates and strict flag; a third of "
+            "the multi-call histories is built so that an early call raises inside an include - strict missing variable or "
+            "len() of an int in the included template, also one include level deeper - and a later call renders the same "
+            "include with a good context); every call is judged on its own against the reference. Per call: templates generated from the documented grammar as ASTs (text, plain/optional/piped variables, {{.}}, "
             "non-nested if/else and each blocks with varying header whitespace, includes over <=3 acyclic levels, "
             "unknown includes), printed to text; contexts of strings/ints/bools/lists of strings and of string-valued "
             "dicts (dict keys may shadow item/index/first); first half delimiter-free, second half adversarial "
@@ -770,7 +837,8 @@ class C12(Check):
                   "renders exactly the single left-to-right expansion with values verbatim), c12_opacity (in the taint model no "
                   "scanner match of any pass ever covers a code point that did not come from the template: the (origin, pass) log "
                   "is empty, any outcome), c12_strict_loop_vars / c12_strict_unbound_is_error, c12_missing_plain_var_warned, "
-                  "c12_unknown_include_marker. The pre-repair pipeline is kept behind a legacy switch with ten machine-checked "
+                  "c12_unknown_include_marker, c12_render_is_function_of_its_inputs (on one instance every call of a history has the "
+                  "outcome of the same call on a fresh instance). The pre-repair pipeline is kept behind a legacy switch with ten machine-checked "
                   "refutations. Model, taint model and Coq reference renderer are tied to the code / to an independent Python "
                   "reference renderer by evaluating them in Coq on every generated template/context the implementation rendered "
                   "(delimiter-free, adversarial, sentinel-bearing).")
@@ -791,6 +859,9 @@ class C12(Check):
                    "dict-item keys are identifiers (a key containing braces can make the loop-body str.replace span an earlier value)",
                    "templates and values are otherwise ASCII",
                    "context variable names are identifiers other than template/self/sequence",
+                   "between calls a Ribosome keeps templates, filters, flags and two statistics counters; translate() reads "
+                   "only templates/filters/strict (modelled instance state: templates, strict, a call counter); the counters "
+                   "themselves are not observed",
                    "included templates form an acyclic graph (a cycle is RecursionError in the code, OutOfFuel in the model)"]
 
     # -- generation --------------------------------------------------------
@@ -800,16 +871,16 @@ class C12(Check):
             g = Gen(rng, adv=(i >= n // 2))
             keep = W([["T", "plain text"]], [], phase="adv" if i >= n // 2 else "free")
             for _try in range(20):
-                c = g.case()
-                if not (len(pr(c["main"])) <= 150 and all(len(pr(t)) <= 150 for _n, t in c["templates"])):
+                c = g.history()
+                if not (all(len(pr(cl["main"])) <= 150 for cl in calls_of(c))
+                        and all(len(pr(t)) <= 150 for _n, t in c["templates"])):
                     continue
-                # leaks can blow the output up exponentially (a value that re-introduces an include
-                # or itself); keep what Coq has to evaluate small
+                # keep what Coq has to evaluate small
                 try:
-                    txt = run_real(c)["text"]
+                    txts = [x["text"] for x in run_history(c)]
                 except Exception:
-                    txt = None
-                if txt is not None and len(txt) > MAX_OUTPUT:
+                    txts = []
+                if any(t is not None and len(t) > MAX_OUTPUT for t in txts):
                     self.oversized = getattr(self, "oversized", 0) + 1
                     continue
                 keep = c
@@ -832,6 +903,16 @@ class C12(Check):
             W([["V", "m1"], ["G", "t1"]], [], templates=[["t1", [["V", "m2"]]]], phase="free"),
             W([["V", "m1"]], [], strict=True, phase="free"),
             W([["P", "n1", "length"]], [["n1", {"i": 3}]], phase="free"),
+            # histories on one instance: a call that raises inside an include, then a good retry
+            {"templates": [["footer", [["T", "Contact: "], ["V", "email"]]]], "strict": True, "phase": "free",
+             "calls": [{"main": [["V", "title"], ["T", " / "], ["G", "footer"]], "ctx": [["title", {"s": "Report"}]]},
+                       {"main": [["V", "title"], ["T", " / "], ["G", "footer"]],
+                        "ctx": [["title", {"s": "Report"}], ["email", {"s": "ops@example.org"}]]}]},
+            {"templates": [["count", [["P", "n", "length"], ["T", " entries"]]],
+                           ["summary", [["T", "["], ["G", "count"], ["T", "]"]]]], "strict": False, "phase": "free",
+             "calls": [{"main": [["T", "Summary "], ["G", "summary"]], "ctx": [["n", {"i": 5}]]},
+                       {"main": [["T", "Summary "], ["G", "summary"]], "ctx": [["n", {"l": ["a", "b", "c"]}]]},
+                       {"main": [["G", "count"]], "ctx": [["n", {"s": "xy"}]]}]},
         ]
         return base + super().corpus_cases()
 
@@ -839,12 +920,11 @@ class C12(Check):
         return []          # every former finding is repaired; the witnesses live on in corpus_cases()
 
     # -- implementation ----------------------------------------------------
-    def run_impl(self, case):
-        real = run_real(case)
+    def _run_call(self, case, real, esc_real):
         tpl_text = [(n, pr(t)) for n, t in case["templates"]]
         mir = mirror_render(tpl_text, pr(case["main"]), py_ctx(case["ctx"]), case["strict"])
         ref = ref_render(case["templates"], case["main"], case["ctx"], case["strict"])
-        esc_run = run_real(case, True) if not ctx_free(case) else None
+        esc_run = esc_real if not ctx_free(case) else None
         mir_esc = (mirror_render(tpl_text, pr(case["main"]), py_ctx(case["ctx"], True), case["strict"])
                    if esc_run is not None else None)
         if real["error"] is None:
@@ -868,15 +948,52 @@ class C12(Check):
         obs.append([1])
         return obs, {"real": real, "mirror": mir, "ref": ref, "esc": esc_run, "mirror_esc": mir_esc}
 
+    def run_impl(self, case):
+        """the whole history on one instance (and, when some value carries braces, the same
+        history with the braces neutralised on a second instance)"""
+        n = len(calls_of(case))
+        reals = run_history(case)
+        need_esc = any(not ctx_free(sub_case(case, k)) for k in range(n))
+        escs = run_history(case, True) if need_esc else [None] * n
+        obs, traces = [], []
+        for k in range(n):
+            o, t = self._run_call(sub_case(case, k), reals[k], escs[k])
+            obs += o
+            traces.append(t)
+        return obs, {"calls": traces}
+
     def coq_case(self, case):
         T = clist([ctuple(coq_str(n), coq_tpl(t)) for n, t in case["templates"]])
-        cx = clist([ctuple(coq_str(k), coq_value(v)) for k, v in case["ctx"]])
-        return ctuple(T, coq_tpl(case["main"]), cx, cbool(case["strict"]))
+        cls = clist([ctuple(coq_tpl(cl["main"]), clist([ctuple(coq_str(k), coq_value(v)) for k, v in cl["ctx"]]))
+                     for cl in calls_of(case)])
+        return ctuple(T, cls, cbool(case["strict"]))
 
     # -- the property on the implementation ----------------------------------
     def monitor(self, case, obs, trace):
+        """every call of the history is judged on its own against the reference: a later render
+        must equal the reference whatever earlier calls did (an earlier exception leaves no trace)"""
         if trace.get("harness_error") or trace.get("hang"):
             return Violation("C12/raises", f"translate did not return normally: {trace}")
+        n = len(calls_of(case))
+        for k in range(n):
+            sub = sub_case(case, k)
+            v = self._monitor_call(sub, trace["calls"][k])
+            if v is None:
+                continue
+            if n > 1:
+                # does the same call pass on a fresh instance?  then the instance carried state over
+                fo, ft = self._run_call(sub, run_real(sub), run_real(sub, True) if not ctx_free(sub) else None)
+                if self._monitor_call(sub, ft) is None:
+                    before = [("raised " + str(t["real"]["error"])) if t["real"]["error"] else "rendered"
+                              for t in trace["calls"][:k]]
+                    return Violation("C12/state-leak",
+                                     f"call {k + 1} of {n} on one Ribosome differs from the same call on a fresh instance "
+                                     f"(earlier calls: {before}): {v.what}")
+                v.what = f"call {k + 1} of {n}: " + v.what
+            return v
+        return None
+
+    def _monitor_call(self, case, trace):
         real, mir, ref, escr = trace["real"], trace["mirror"], trace["ref"], trace["esc"]
         wf, free, clean = case_wf(case), ctx_free(case), ctx_clean(case)
         if real["error"] and real["error"][0] in ("other",):
@@ -943,6 +1060,11 @@ class C12(Check):
         return None
 
     def nontrivial(self, case, obs, trace):
+        if "calls" not in trace:
+            return False
+        return any(self._nontrivial_call(sub_case(case, k), trace["calls"][k]) for k in range(len(calls_of(case))))
+
+    def _nontrivial_call(self, case, trace):
         if not ctx_clean(case):
             real, ref = trace.get("real") or {}, trace.get("ref") or {}
             ob = self.extra_cov.setdefault("sentinel_observation", {"cases": 0, "output_differs_from_reference": 0, "example": None})
@@ -954,6 +1076,18 @@ class C12(Check):
         return any(n[0] != "T" for n in case["main"])
 
     def classify(self, case, obs, trace):
+        if "calls" not in trace:
+            return ["harness-error"]
+        n = len(calls_of(case))
+        ks = ["calls=%d" % n]
+        errs = [bool(t["real"]["error"]) for t in trace["calls"]]
+        if any(errs[:-1]):
+            ks.append("history:render-after-exception")
+        for k in range(n):
+            ks += self._classify_call(sub_case(case, k), trace["calls"][k])
+        return sorted(set(ks)) if n > 1 else ks
+
+    def _classify_call(self, case, trace):
         ks = ["phase=" + case["phase"], "strict" if case["strict"] else "lenient",
               "wf" if case_wf(case) else "malformed", "includes=%d" % len(case["templates"])]
         real = trace.get("real") or {}
@@ -971,6 +1105,14 @@ class C12(Check):
 
     def shrink(self, case, pred):
         c = dict(case)
+        if "calls" in c:
+            c["calls"] = common.shrink_list(c["calls"], lambda cs: len(cs) > 0 and pred({**c, "calls": cs}))
+            if len(c["calls"]) > 1:
+                return c
+            c = {"templates": c["templates"], "strict": c["strict"], "phase": c.get("phase", "free"),
+                 "main": c["calls"][0]["main"], "ctx": c["calls"][0]["ctx"]}
+            if not pred(c):
+                return {**case, "calls": [{"main": c["main"], "ctx": c["ctx"]}]}
         c["main"] = common.shrink_list(c["main"], lambda ns: len(ns) > 0 and pred({**c, "main": ns}))
         c["ctx"] = common.shrink_list(c["ctx"], lambda cx: pred({**c, "ctx": cx}))
         c["templates"] = common.shrink_list(c["templates"], lambda ts: pred({**c, "templates": ts}))
